@@ -392,6 +392,163 @@ theorem C05_other_lexicons_kept (db : Db) (l : Nat) (x : RLexicon) (hx : x ∈ d
   simp only [List.mem_filter, Bool.and_eq_true]
   exact ⟨hx, by simpa using h1, by simpa using h2⟩
 
+/-- direct extensions of a lexicon -/
+def directExts (db : Db) (b : Nat) : List Nat := (db.exts.filter (fun e => e.base == some b)).map (·.ext)
+
+theorem mem_eraseDups {α} [BEq α] [LawfulBEq α] (l : List α) (x : α) : x ∈ l.eraseDups ↔ x ∈ l := by
+  simp [List.mem_eraseDups]
+
+theorem nodup_eraseDups {α} [BEq α] [LawfulBEq α] : ∀ (n : Nat) (l : List α), l.length ≤ n → l.eraseDups.Nodup := by
+  intro n
+  induction n with
+  | zero =>
+    intro l h
+    have : l = [] := by cases l with | nil => rfl | cons _ _ => simp at h
+    subst this; simp
+  | succ n ih =>
+    intro l h
+    cases l with
+    | nil => simp
+    | cons a t =>
+      rw [List.eraseDups_cons, List.nodup_cons]
+      constructor
+      · intro hm
+        rw [mem_eraseDups] at hm
+        simp at hm
+      · apply ih
+        have := List.length_filter_le (fun b => !b == a) t
+        simp only [List.length_cons] at h
+        omega
+
+theorem extensionsOf_go_closed (db : Db) (root : Nat) : ∀ (f : Nat) (frontier acc : List Nat),
+    acc.Nodup → (∀ x ∈ acc, x ∈ db.exts.map (·.ext)) →
+    (∀ x, (x ∈ acc ∨ x = root) → x ∉ frontier → ∀ y ∈ directExts db x, y ∈ acc) →
+    (∀ x ∈ frontier, x ∈ acc ∨ x = root) →
+    (db.exts.map (·.ext)).length - acc.length < f →
+    ∀ x, (x ∈ extensionsOf.go db f frontier acc ∨ x = root) → ∀ y ∈ directExts db x, y ∈ extensionsOf.go db f frontier acc := by
+  intro f
+  induction f with
+  | zero => intro frontier acc _ _ _ _ hf; omega
+  | succ f ih =>
+    intro frontier acc hnd hsub h1 h2 hf x hx y hy
+    simp only [extensionsOf.go] at hx ⊢
+    have hnext : ∀ z, z ∈ frontier.flatMap (fun b => (db.exts.filter (fun e => e.base == some b)).map (·.ext)) ↔
+        ∃ b ∈ frontier, z ∈ directExts db b := by
+      intro z; simp only [List.mem_flatMap, directExts]
+    split
+    · rename_i hemp
+      split at hx
+      · -- fresh empty: acc is closed
+        by_cases hxf : x ∈ frontier
+        · have : y ∈ (frontier.flatMap (fun b => (db.exts.filter (fun e => e.base == some b)).map (·.ext))) := (hnext y).mpr ⟨x, hxf, hy⟩
+          have hfe : ((frontier.flatMap (fun b => (db.exts.filter (fun e => e.base == some b)).map (·.ext))).filter (fun x => !acc.contains x)).eraseDups = [] := by
+            simpa using hemp
+          by_cases hya : y ∈ acc
+          · exact hya
+          · have : y ∈ ((frontier.flatMap (fun b => (db.exts.filter (fun e => e.base == some b)).map (·.ext))).filter (fun x => !acc.contains x)).eraseDups := by
+              rw [mem_eraseDups]; simp only [List.mem_filter]; exact ⟨this, by simpa using hya⟩
+            rw [hfe] at this; simp at this
+        · exact h1 x hx hxf y hy
+      · rename_i hne; exact absurd hemp hne
+    · rename_i hne
+      split at hx
+      · rename_i hemp; exact absurd hemp hne
+      · -- recursive call
+        let next := frontier.flatMap (fun b => (db.exts.filter (fun e => e.base == some b)).map (·.ext))
+        let fresh := (next.filter (fun x => !acc.contains x)).eraseDups
+        have hfresh_mem : ∀ z, z ∈ fresh ↔ z ∈ next ∧ z ∉ acc := by
+          intro z; simp only [fresh, mem_eraseDups, List.mem_filter]; simp
+        have hfresh_ne : fresh ≠ [] := by
+          intro e; apply hne; show fresh.isEmpty = true; rw [e]; rfl
+        refine ih fresh (acc ++ fresh) ?_ ?_ ?_ ?_ ?_ x hx y hy
+        · rw [List.nodup_append]
+          refine ⟨hnd, nodup_eraseDups _ _ (Nat.le_refl _), ?_⟩
+          intro a ha b hb e
+          subst e
+          exact ((hfresh_mem a).mp hb).2 ha
+        · intro z hz
+          rcases List.mem_append.mp hz with hz | hz
+          · exact hsub z hz
+          · obtain ⟨b, _, hzb⟩ := (hnext z).mp ((hfresh_mem z).mp hz).1
+            simp only [directExts, List.mem_map, List.mem_filter] at hzb ⊢
+            obtain ⟨e, ⟨he, _⟩, rfl⟩ := hzb
+            exact ⟨e, he, rfl⟩
+        · intro z hz hzf w hw
+          have hz' : z ∈ acc ∨ z = root := by
+            rcases hz with hz | hz
+            · rcases List.mem_append.mp hz with hz | hz
+              · exact Or.inl hz
+              · exact absurd hz hzf
+            · exact Or.inr hz
+          by_cases hzfr : z ∈ frontier
+          · have hwn : w ∈ next := (hnext w).mpr ⟨z, hzfr, hw⟩
+            by_cases hwa : w ∈ acc
+            · exact List.mem_append_left _ hwa
+            · exact List.mem_append_right _ ((hfresh_mem w).mpr ⟨hwn, hwa⟩)
+          · exact List.mem_append_left _ (h1 z hz' hzfr w hw)
+        · intro z hz; exact Or.inl (List.mem_append_right _ hz)
+        · have hlen : (acc ++ fresh).length ≤ (db.exts.map (·.ext)).length := by
+            apply List.Nodup.length_le_of_subset
+            · rw [List.nodup_append]
+              refine ⟨hnd, nodup_eraseDups _ _ (Nat.le_refl _), ?_⟩
+              intro a ha b hb e
+              subst e
+              exact ((hfresh_mem a).mp hb).2 ha
+            · intro z hz
+              rcases List.mem_append.mp hz with hz | hz
+              · exact hsub z hz
+              · obtain ⟨b, _, hzb⟩ := (hnext z).mp ((hfresh_mem z).mp hz).1
+                simp only [directExts, List.mem_map, List.mem_filter] at hzb ⊢
+                obtain ⟨e, ⟨he, _⟩, rfl⟩ := hzb
+                exact ⟨e, he, rfl⟩
+          have hpos : 0 < fresh.length := List.length_pos_iff.mpr hfresh_ne
+          simp only [List.length_append] at hlen ⊢
+          omega
+
+/-- `get_lexicon_extensions` is closed under "extends": it contains the direct extensions of the
+lexicon and of every lexicon it contains, i.e. all transitive extensions — whenever the fuel
+exceeds the number of extension rows -/
+theorem C05_extensions_closed (db : Db) (l : Nat) (fuel : Nat) (hf : db.exts.length < fuel) (x : Nat)
+    (hx : x ∈ extensionsOf db fuel l ∨ x = l) : ∀ y ∈ directExts db x, y ∈ extensionsOf db fuel l := by
+  unfold extensionsOf at hx ⊢
+  exact extensionsOf_go_closed db l fuel [l] [] (by simp) (by simp)
+    (by intro z hz hzf; rcases hz with hz | hz; simp at hz; subst hz; simp at hzf)
+    (by intro z hz; right; simpa using hz) (by simp; exact hf) x hx
+
+
+theorem foldl_delete_exts (L : List Nat) : ∀ (db : Db),
+    (L.foldl deleteLexicon db).exts = db.exts.filter (fun r => !L.contains r.ext) := by
+  induction L with
+  | nil => intro db; exact (List.filter_eq_self.mpr (by simp)).symm
+  | cons a t ih =>
+    intro db
+    simp only [List.foldl_cons, ih]
+    simp only [deleteLexicon, List.filter_filter]
+    congr 1
+    funext r
+    by_cases h1 : r.ext = a <;> simp [h1]
+
+/-- after `remove()` no extension row is left pointing at a removed base: the last clause of
+referential integrity (`lexicon_extensions.base_rowid`, declared without ON DELETE action, so
+SQLite would refuse the delete otherwise) -/
+theorem C05_remove_no_dangling_base (db : Db) (l : Nat) (hf : db.exts.length < db.lexicons.length + 1)
+    (e : RExt) (he : e ∈ (removeLexicon db l).exts) (b : Nat) (hb : e.base = some b) :
+    b ≠ l ∧ b ∉ extensionsOf db (db.lexicons.length + 1) l := by
+  unfold removeLexicon at he
+  simp only [deleteLexicon] at he
+  rw [foldl_delete_exts] at he
+  simp only [List.mem_filter, List.contains_reverse] at he
+  obtain ⟨⟨he1, he2⟩, he3⟩ := he
+  have hnot : e.ext ∉ extensionsOf db (db.lexicons.length + 1) l := by simpa using he2
+  have hdir : e.ext ∈ directExts db b := by
+    simp only [directExts, List.mem_map, List.mem_filter]
+    exact ⟨e, ⟨he1, by simp [hb]⟩, rfl⟩
+  constructor
+  · intro hbl
+    exact hnot (C05_extensions_closed db l _ hf b (Or.inr hbl) _ hdir)
+  · intro hbx
+    exact hnot (C05_extensions_closed db l _ hf b (Or.inl hbx) _ hdir)
+
 /-! ### frame: rows that reference nothing removed survive unchanged -/
 theorem C05_entry_survives_iff (db : Db) (l : Nat) (r : REntry) :
     r ∈ (deleteLexicon db l).entries ↔ r ∈ db.entries ∧ r.lex ≠ l := by
